@@ -70,7 +70,7 @@ def run_lifetimes(tier, seed):
     pending, out_lines, died = list(drivers), [], []
     while pending:
         rv.write_ndjson(dfile, pending)
-        rc, out, _ = rv.run_harness(binary, "handles", [dfile, tfile, os.path.join(wd, "files")], timeout=1200, allow_fail=True)
+        rc, out, _ = rv.run_harness(binary, "handles", [dfile, tfile, os.path.join(wd, "files")], timeout=3600, allow_fail=True, cpu_limit=int(os.environ.get("RV_CPU_LIMIT", "300")))
         with open(tfile) as f:
             got = [l for l in f.readlines() if l.endswith("\n")]
         out_lines += got
